@@ -188,6 +188,15 @@ type loopInfo struct {
 	framePre  *State
 }
 
+// abstractf: a pure value expression outside the modelled subset is replaced by an arbitrary value of its sort (an
+// over-approximation: what is proved stays proved; an obligation that needs the value fails like any other). Recorded in the
+// evidence as ABSTRACTED:<what>; the function stays decidable.
+func (vc *VC) abstractf(format string, a ...interface{}) {
+	if vc.used != nil {
+		vc.used["ABSTRACTED:"+fmt.Sprintf(format, a...)] = true
+	}
+}
+
 func (vc *VC) errf(format string, a ...interface{}) {
 	msg := fmt.Sprintf(format, a...)
 	if vc.softErr != nil {
@@ -701,7 +710,7 @@ func (f *Frame) binop(op token.Token, a, b Val, resT types.Type, pos token.Pos) 
 		o := map[token.Token]string{token.LSS: "<", token.LEQ: "<=", token.GTR: ">", token.GEQ: ">="}[op]
 		if a.s == SStr {
 			vc.declareFun("str_lt", []Sort{SStr, SStr}, SBool)
-			vc.errf("string ordering unsupported")
+			vc.abstractf("string ordering (uninterpreted order)")
 			return Val{sx("str_lt", a.t, b.t), SBool, resT}
 		}
 		return Val{sx(o, a.t, b.t), SBool, resT}
@@ -741,7 +750,7 @@ func (f *Frame) binop(op token.Token, a, b Val, resT types.Type, pos token.Pos) 
 			}
 		}
 	}
-	vc.errf("%s: unsupported binary operator %s on %s (mode int)", vc.P.fnKey(f.fn), op, rs)
+	vc.abstractf("%s: binary operator %s on %s (mode int): arbitrary result", vc.P.fnKey(f.fn), op, rs)
 	return Val{vc.fresh("unsupported", rs), rs, resT}
 }
 
@@ -812,7 +821,7 @@ func (f *Frame) convert(x Val, to types.Type) Val {
 	case x.s == SFP || ts == SFP:
 		return f.fpConvert(x, to)
 	}
-	vc.errf("%s: unsupported conversion %s -> %s", vc.P.fnKey(f.fn), x.s, ts)
+	vc.abstractf("%s: conversion %s -> %s: arbitrary result", vc.P.fnKey(f.fn), x.s, ts)
 	return Val{vc.fresh("conv", ts), ts, to}
 }
 
